@@ -184,6 +184,23 @@ def run(ctx):
         documents.append('import qmluic.QtWidgets\nQWidget { palette.window: "%s"; palette.active.text: "%s" }\n' % (b, b))
         documents.append('import qmluic.QtWidgets\nQWidget { windowIcon.name: "%s"; styleSheet: "%s"; QAction { shortcut: "%s" } QLabel { pixmap: "%s" } }\n' % (b, b, b, b))
     ctx.dist("doc-value-type-strings", 3 * len(specials))
+    # constant arithmetic at the edges of the 64-bit range, the extreme values spelled WITHOUT an out-of-range literal (computed: -max - 1, ~max, 1 << 63): every operator on every
+    # pair of edge operands, folded on its own and inside an expression that stays dynamic
+    edge = ["0", "1", "-1", "2", "63", "64", "-64", "2147483647", "-2147483648", "2147483648", "4294967295", "9223372036854775807", "(-9223372036854775807 - 1)", "~0x7fffffffffffffff",
+            "-9223372036854775807", "0x7fffffffffffffff", "(1 << 62)", "(1 << 63)"]
+    pairs = [(a, op, b) for a in edge for op in ("+", "-", "*", "/", "%", "<<", ">>", "&", "|", "^", "<", "==") for b in edge]
+    must = [(a, op, b) for (a, op, b) in pairs if (a.startswith("(-92") or a.startswith("~") or a == "(1 << 63)") and b in ("-1", "0", "1", "64", "-64") and op in ("/", "%", "*", "-", "<<", ">>")]
+    if ctx.tier != "thorough":
+        pairs = must + rng.sample(pairs, 120)
+    for a, op, b in pairs:
+        if rng.random() < 0.5 or (a, op, b) in must:
+            documents.append("import qmluic.QtWidgets\nQSpinBox { %s: %s %s %s }\n" % ("enabled" if op in ("<", "==") else "value", a, op, b))
+        else:
+            documents.append("import qmluic.QtWidgets\nQWidget { QSpinBox { id: other } QSpinBox { %s: other.value %s (%s %s %s) } }\n" % (("enabled", "==", a, op, b) if op in ("<", "==") else ("value", "+", a, op, b)))
+    for a in edge:
+        for u in ("-", "~", "+", "!"):
+            documents.append("import qmluic.QtWidgets\nQSpinBox { value: %s(%s) }\n" % (u, a))
+    ctx.dist("doc-constant-arithmetic-edges", len(pairs) + 4 * len(edge))
     if ctx.replay and isinstance(ctx.replay.get("case"), str):
         documents = [ctx.replay["case"]]
     ctx.dist("doc-corpus", len(base)); ctx.dist("doc-mutant", len(base) * nmut); ctx.dist("doc-soup", 400 if ctx.tier == "thorough" else 60)
